@@ -113,7 +113,7 @@ PROPS["C04"] = {
     "model_targets": ["Model/Md32.vo"],
     "runs": [detect_run("C04", 300, 5000, bigq=1, bigt=8), MD_RUN, CD_RUN, E2E_RUN],
     "search": detect_search("C04"),
-    "rule": DETECT_RULE + "; thresholds drawn from {0, 0.01, 0.02, 0.05, 0.1, 0.2, 0.3, 0.5, 0.8, 1} and their binary32 neighbours, "
+    "rule": DETECT_RULE + "; thresholds drawn from {0, 0.01, 0.02, 0.05, 0.1, 0.2, 0.3, 0.5, 0.8, 1} and their binary32 neighbours, and -- every fourth case -- set bit-equal to the chaos of a returned match and one ulp either side (real and model re-run), "
             "fall-back and pre-emptive switches both ways; every mess / coherence answer of the real primitives is checked against "
             "the MessOK / CohOK contracts the theorems assume" + MD_RULE + E2E_RULE,
     "assumptions": ["MessOK: mess_ratio returns a non-NaN non-negative f32 -- a hypothesis of the generic theorem (asserted on every oracle answer) and PROVED of "
